@@ -193,7 +193,8 @@ SolverStreamContract(e) ==
                 Fl("verdict_is_the_solvers_reply", badverdict = {}) \o
                 Fl("model_assigns_every_live_symbol_the_solvers_value", badmodel = {}) \o
                 Fl("value_is_the_solvers_reply", badvalue = {}), <<>>,
-                IF failed # {} THEN CHOOSE k \in failed : TRUE
+                IF final.illegal # <<>> THEN -1           \* (the terms of an illegal stream cannot be evaluated)
+                ELSE IF failed # {} THEN CHOOSE k \in failed : TRUE
                 ELSE IF badlive # {} THEN CHOOSE k \in badlive : TRUE
                 ELSE IF badmodel # {} THEN CHOOSE k \in badmodel : TRUE ELSE -1)
 =============================================================================
